@@ -13,15 +13,17 @@ from .values import SV, BoolV, ExcV, IntV, NoneV, Path, RefV, Unsupported
 class ContainerMixin:
     # ------------------------------------------------------------------ allocation
     def new_list_fn(self, p: Path, length, item_fn) -> SV:
-        """Allocate a fresh list object with the given length and content i -> item_fn(i)."""
+        """Allocate a fresh list object with the given length and content i -> item_fn(i).
+        The object is a fresh constant that was not allocated so far, so nothing has been said
+        about its content yet: the content is *assumed* on the current llen/litem symbols instead
+        of introducing new heap versions (keeps the terms of pre-existing lists stable)."""
         h = p.heap
         l = L.fresh("lst", L.LRef)
         p.assume(l != L.LNONE, Not(h.lalloc(l)))
         h1, ax1 = h.define("lalloc", lambda old, x: Or(x == l, old(x)))
-        h2, ax2 = h1.define("llen", lambda old, x: If(x == l, length, old(x)))
-        h3, ax3 = h2.define("litem", lambda old, x, i: If(x == l, item_fn(i), old(x, i)))
-        p.heap = h3
-        p.assume(ax1, ax2, ax3, length >= 0)
+        p.heap = h1
+        i = L.fresh("i", L.I)
+        p.assume(ax1, length >= 0, h1.llen(l) == length, ForAll([i], Implies(And(0 <= i, i < length), h1.litem(l, i) == item_fn(i)), patterns=[h1.litem(l, i)]))
         return SV("lref", l)
 
     def new_list(self, p: Path, items: list) -> SV:
